@@ -13,6 +13,9 @@ TARGETS = ["theories/Props/C08.vo", "theories/Proofs/GenEq_EdgeCase.vo", "theori
            "theories/Proofs/GenEq_ZeroCases.vo"]
 GENEQ = {"theories/Proofs/GenEq_EdgeCase.vo": "EdgeCase", "theories/Proofs/GenEq_ResultCalc.vo": "ResultCalc",
          "theories/Proofs/GenEq_ZeroCases.vo": "ZeroCases"}
+# T1 units added after round 4 of the seeded changes
+TARGETS = TARGETS + ["theories/Proofs/GenEq_ResultInit.vo"]
+GENEQ = dict(GENEQ, **{"theories/Proofs/GenEq_ResultInit.vo": "ResultInit"})
 ALLOWED_AXIOMS = []
 RULE = ("case = (handler table: 4 scenario entries in {INF,NAN,ZERO,ONE,NONE} per metric + empty-list value, input type, scenario input); "
         "thorough: all 5^4 tables x 5 std values (metrics varied in parallel by rotating the table) on one representative input per "
